@@ -21,12 +21,13 @@ rounding is not modelled) and hold for every class count `n ≥ 1`, every compar
 
 Clause → theorem (equal-probability scheme `discretizeEqualProportions`):
  n_classes · probs_nonneg · probs_sum_one · equal_mass · values_strict_mono  (no hypothesis on the parent),
- bounds_monotone_in_domain (H), value_in_own_class (mean-valued classes / uniform fallback, resolved),
+ bounds_in_domain (every parent), bounds_monotone_in_domain (H), value_in_own_class_partial (mean-valued classes /
+ uniform fallback, resolved; `separated_value_outside_class_witness` shows the guard is needed),
  value_in_own_class_median_partial (median-valued: only when the medians are not rescaled;
  `median_rescaled_outside_class_witness` shows the full clause is false), class_mass (H),
  mean_preserved (H, mean-valued, resolved), mean_preserved_median (rescaled medians).
 Equal-interval scheme: `equal_interval_partition` (no side condition), `equal_interval_valid` (with
-value_in_own_class and class_mass), dispatch with fallback: `discretize_partition`.  Look-ups: `lookup_spec`, `lookup_unique`, `lookup_value`;
+value_in_own_class and class_mass), dispatch with fallback: `discretize_partition`.  Look-ups: `lookup_spec`, `lookup_unique`, `lookup_outside`;
 `cumulative_consistent`; `restrict_domain`; histories: `rediscretize_inv`; families with closed
 forms: `exponential_H`, `truncated_exponential_H`, `uniform_H` and the unconditional
 `exponential_history_valid`, `uniform_history_valid`, `truncated_exponential_history_valid`; compounds: `compound_normalised_*` (BppProofs/Props/C09Compound.lean).
@@ -88,10 +89,22 @@ theorem bounds_monotone_in_domain (par : Parent ℝ) (s s' : DD ℝ) (hs : Pre s
   simp only [boundsMonoInDom, nondecr_iff, DD.allBounds]
   exact eqPropRaw_bounds_chain par s hs.n_pos hs.dom_ordered H
 
-/-- **value_in_own_class** for mean-valued classes (and for the uniform fallback, whatever the
-median flag): where the precision does not interfere, class value `i` lies in
-`[allBounds[i], allBounds[i+1]]`. -/
-theorem value_in_own_class (par : Parent ℝ) (s s' : DD ℝ) (hs : Pre s)
+/-- **bounds_in_domain**: after `discretize()` — any of the three schemes, *any* parent (no `H`: the
+quantiles are clamped into the domain) — the domain is ordered and every interior bound lies in
+it.  The driver judges this clause unconditionally. -/
+theorem bounds_in_domain (par : Parent ℝ) (s s' : DD ℝ) (hs : Pre s) (h : discretize par s = .ok s') :
+    boundsInDom s' = true := discretize_bounds_in_dom par s s' hs.n_pos hs.dom_ordered h
+
+/-- **value_in_own_class** — `_partial`.  Full clause wanted: after every discretisation each class
+value lies in its own class interval.  Proved: for mean-valued classes (and for the uniform fallback,
+whatever the median flag) *where the comparator precision does not interfere* (`resolved`: no
+adjustment at the ends of the domain, raw values further apart than the precision).  Outside the
+guard the clause is false of the code: on a domain narrower than `n·precision` the separation loop
+of `insertClass_` moves class values by at least the precision, out of their class and out of the
+domain (`separated_value_outside_class_witness`, known finding C09-separated-value-outside-class);
+for rescaled medians see `value_in_own_class_median_partial`.  One-step only: the clause is not
+part of `Valid`, hence of no history theorem. -/
+theorem value_in_own_class_partial (par : Parent ℝ) (s s' : DD ℝ) (hs : Pre s)
     (H : ParentOK par s.dom.lo s.dom.hi)
     (hm : s.median = false ∨ par.P s.dom.hi = par.P s.dom.lo)
     (hr : resolved par s = true) (h : eqProp par s = .ok s') : valuesInClass s' = true := by
@@ -110,6 +123,18 @@ theorem value_in_own_class (par : Parent ℝ) (s s' : DD ℝ) (hs : Pre s)
   apply zip_pairs_all
   intro p hp
   exact hg p (pairs_ordered _ hch p hp)
+
+/-- the guard `resolved` is needed: the uniform parent on `[1/2, 1/2 + 10⁻¹³]` (H holds), 3 classes,
+precision `10⁻¹²`: the three raw class values are equivalent for the map, the separation loop puts
+the first `≈ 3·10⁻¹²` below and the third `≈ 2·10⁻¹²` above the domain; `getValueCategory` of those
+two class values raises "out of bounds" on the real library (same numbers). -/
+theorem separated_value_outside_class_witness :
+    let s : DD Rat := Witness.narrowState
+    resolved Witness.unif01 s = false ∧
+    (match eqProp Witness.unif01 s with
+     | .ok r => nClassesOk r && valuesStrictMono r && !(valuesInClass r) && (r.cats.map (fun c => r.dom.isCorrect c) == [false, true, false])
+     | .error _ => false) = true := by
+  constructor <;> decide +kernel
 
 /-- **class_mass** (equal probabilities): under `H`, when the parent has mass on the domain, every
 class interval carries the parent's mass `(P upper − P lower)/n`, i.e. its own probability times
@@ -424,6 +449,26 @@ leaves the state unchanged; narrowing the domain keeps `H` (`ParentOK.restrict`)
 theorem rediscretize_inv (st st' : MSt) (ops : List Op) (hg : Good st) (ha : AllAdm st ops)
     (h : run st ops = .ok st') : Good st' :=
   run_good st st' ops hg ha h
+
+/-- **update_keeps_domain_ordered**: `fireParameterChanged` of the gamma (with or without the offset
+parameter), beta and gaussian families never leaves an inverted domain — whatever parameter is set
+to whatever value, from a state with an ordered domain: when it returns the class count, the
+precision and an *ordered* domain containing every interior bound are there (so the hypothesis
+"`dom.lo ≤ dom.hi`" that `rediscretize_inv` asks of an `update` is met by the code); an offset that
+leaves no support inside the domain is refused (`gamma_offset_refused`).  Before the repair of audit
+finding F1 an accepted offset update of a restricted gamma gave the domain `]5, 2]`. -/
+theorem update_keeps_domain_ordered (oracle : Parent ℝ) (f f' : FamSt ℝ) (slot : Nat) (v : ℝ)
+    (hfam : f.fam = .gamma ∨ f.fam = .beta ∨ f.fam = .gauss) (hpre : Pre f.dd) (h : fire oracle f slot v = .ok f') :
+    Pre f'.dd ∧ boundsInDom f'.dd = true := fire_pre oracle f f' slot v hfam hpre h
+
+/-- a gamma with offset 1/2 restricted to `[1,2]`: the offset 5 is refused, the offset 3/2 moves the
+lower end to `]3/2`, the offset 1/5 leaves the restricted lower end 1 in force -/
+theorem gamma_offset_refused :
+    let f : FamSt Rat := Witness.gammaRestricted
+    (match fire Witness.plParent f 3 5 with | .error .constraint => true | _ => false) = true ∧
+    (match fire Witness.plParent f 3 (3/2) with | .ok g => g.dd.dom.lo == 3/2 && !g.dd.dom.inclLo && boundsInDom g.dd | _ => false) = true ∧
+    (match fire Witness.plParent f 3 (1/5) with | .ok g => g.dd.dom.lo == 1 && g.dd.dom.inclLo && g.p3 == 1/5 | _ => false) = true := by
+  refine ⟨?_, ?_, ?_⟩ <;> decide +kernel
 
 /-! ## families whose parent has closed forms: `H` is proved, the instances are unconditional -/
 
